@@ -39,7 +39,7 @@ T = {
          "Reals axioms (Coquelicot).", "DESIGN.md 4/C08"),
  "C10": ("Coq proof (projection solves the posterior-mean equation, which has a unique solution because the precision is I + PSD; zero statistics give 0; covariance floor; covariances untouched without updating) + project/fit correspondence + independent marginal-likelihood oracle",
          "Theorems over R under the solver contract; IVectorMachine.project/fit compared with the float model (T0 replayed from the seeded global draw); the oracle computes the marginal likelihood with slogdet after every iteration.",
-         "EM monotonicity of the marginal likelihood is a theorem for a rank-1 subspace with fixed covariances (the code's e_step/m_step is the exact EM step); for rank > 1 or with covariance updating it is validated numerically only (no determinant theory over R installed): partial.", "DESIGN.md 4/C10"),
+         "EM monotonicity of the marginal likelihood is a theorem for a rank-1 subspace, with fixed covariances and with covariance updating while no floor is active (the code's e_step/m_step is the exact EM step on (T, sigma)); for rank > 1 it is validated numerically only (no determinant theory over R installed): partial.", "DESIGN.md 4/C10"),
  "C12": ("Coq proof (pairwise tree reduction = plain sum for every length; accumulators form a commutative monoid; per-partition E-steps add up to the E-step of the whole; one iteration independent of the partitioning; schedule independence; copy-back inclusion on generated lists) + bag exploration under the custom scheduler",
          "Theorems for every number and size of partitions; ISV/JFA/i-vector trained from dask bags with 1..n partitions, shuffled labels, shuffled task orders, shared and isolated, against the in-memory list fit.",
          "The ISV/JFA regrouping of bag partitions by running index is a theorem (Bag.v: regroup of any partitioning = grouping of the flat list); the running of the bag graph itself is covered by the exploration.", "DESIGN.md 4/C12"),
